@@ -131,10 +131,44 @@ def lookup(rep):
         r = pr.prove(list(s.pc), ex.truth(v) == z3.Or(z3.Select(Hc, wroot) != NONE, M.truthy(wroot)))
         rep.add(f'C06.is_packages_trie.post.path{pi}', r.status, time=r.time, backend=r.backend, where='true iff beartype_all is active or some package is registered (root trie non-empty)')
 
+FRESH_SRC = """
+import sys
+preloaded = set(sys.modules)
+from beartype.claw import beartype_all, beartyping, beartype_package
+from beartype import BeartypeConf
+bad = []
+def try_imports(label, names):
+    for n in names:
+        if n in sys.modules: continue
+        try: __import__(n)
+        except BaseException as e: bad.append((label, n, type(e).__name__ + ': ' + str(e)[:120]))
+with beartyping():
+    try_imports('beartyping()', ['colorsys', 'this' if False else 'sched'])
+beartype_all()
+try_imports('beartype_all()', ['bisect', 'heapq', 'fnmatch', 'textwrap', 'hashlib', 'hmac', 'secrets', 'base64', 'quopri', 'uu' if False else 'stringprep'])
+beartype_all(conf=BeartypeConf())      # same configuration again: allowed
+try_imports('beartype_all() again', ['shlex', 'glob', 'tempfile', 'random', 'statistics'])
+print(bad)
+sys.exit(1 if bad else 0)
+"""
+def fresh_interpreter(rep):
+    """bounded (NOT counted as proved): in a FRESH interpreter (nothing pre-imported beyond what `import beartype.claw` itself imports) modules
+    of the standard library import under beartyping() / beartype_all(): the hook's own machinery must not need a not-yet-imported module
+    that it would then hook recursively"""
+    import subprocess, sys
+    from pyvc import REPO
+    env = dict(os.environ); env['PYTHONPATH'] = REPO; env['PYTHONDONTWRITEBYTECODE'] = '1'
+    p = subprocess.run([sys.executable, '-S', '-c', FRESH_SRC] if False else [sys.executable, '-c', FRESH_SRC], capture_output=True, text=True, timeout=300, env=env, cwd='/')
+    if p.returncode not in (0, 1) or (p.returncode == 1 and not p.stdout.strip().startswith('[')): rep.error('C06 fresh_interpreter harness: ' + (p.stdout + p.stderr)[-600:]); return
+    if p.returncode == 1:
+        rep.add('C06.fresh_interpreter.imports_under_hook', 'refuted', backend='runtime-contract', where=p.stdout.strip()[-400:], solver_output='bounded run-time contract in a fresh interpreter (not a proof)',
+                replay=dict(reproduced=True, detail=p.stdout.strip()[-400:]), replay_script=f"import subprocess\nenv = dict(os.environ); env['PYTHONPATH'] = {REPO!r}; env['PYTHONDONTWRITEBYTECODE'] = '1'\np = subprocess.run([sys.executable, '-c', {FRESH_SRC!r}], env=env, cwd='/')\nsys.exit(p.returncode)\n")
+    rep.bounded.append(dict(kind='fresh interpreter: standard-library imports under beartyping() / beartype_all() (bounded stand-in, NOT counted as proved)', modules=17, failing=int(p.returncode == 1)))
+
 def main(tier, seed):
     rep = report.Report('C06', tier, seed, 'proof', f'./check C06 --tier {tier}')
-    for fn in (lookup, histories):
-        try: fn(rep) if fn is lookup else fn(rep, tier, seed)
+    for fn in (lookup, fresh_interpreter, histories):
+        try: fn(rep) if fn is not histories else fn(rep, tier, seed)
         except Exception: rep.error(f'C06 {fn.__name__}: ' + traceback.format_exc()[-2500:])
     files = ['beartype/claw/_package/clawpkgtrie.py', 'beartype/claw/_package/clawpkgmain.py', 'beartype/claw/_package/clawpkgcontext.py', 'beartype/claw/_package/_clawpkgmake.py', 'beartype/claw/_clawstate.py']
     rep.functions = ['clawpkgtrie.is_package_blacklisted (loop invariant)', 'clawpkgtrie.iter_packages_trie (loop invariant + ghost yield sequence)', 'clawpkgtrie.get_package_conf_or_none (callee contracts + loop invariant)',
